@@ -25,6 +25,8 @@ def key_of(clause, label, prog, tr, l):
 
 
 def run(chk):
-    eg.standard_run(chk, "C04", ["outcomes"], {"pub", "stream", "stream_end", "outcome", "quiet"}, key_of=key_of,
-                    nontrivial=nontrivial,
-                    collect_kw=dict(allow_cancel=True, timeout_advance=True, p_cancel=0.05, drain=False))
+    items = eg.collect(chk, ["outcomes"], allow_cancel=True, timeout_advance=True, p_cancel=0.05, drain=False)
+    # steps racing with the StopEvent: two bodies resumed in the same loop iteration (batch releases)
+    items += eg.collect(chk, ["racing"], batch=True, drain=False, paths_q=40, walks_q=10)
+    eg.standard_run(chk, "C04", None, {"pub", "stream", "stream_end", "outcome", "quiet"}, key_of=key_of,
+                    nontrivial=nontrivial, items=items)
